@@ -214,6 +214,48 @@ func regStep(s regState, op RegOp, single bool) (bool, regState) {
 	return false, s
 }
 
+// splitDrops replaces the removal of a connection by the removals of the peer's entities, each
+// with the window of the whole removal: the registries are cleaned entity by entity, nothing says
+// that other peers see that as one step (a feature freed early may be granted to somebody else
+// while an entry of another entity of the same peer is still there).
+//
+//go:norace
+func splitDrops(ops []RegOp, peers []*Peer) []RegOp {
+	var out []RegOp
+	for _, o := range ops {
+		if o.Kind != "drop" {
+			out = append(out, o)
+			continue
+		}
+		var p *Peer
+		for _, q := range peers {
+			if q.Name == o.Peer {
+				p = q
+			}
+		}
+		if p == nil {
+			out = append(out, o)
+			continue
+		}
+		addrs := map[string]bool{"[0]": true, "[1]": true, "[1,1]": true}
+		for _, e := range p.Ents {
+			addrs[fmtUints(e.Addr)] = true
+		}
+		var keys []string
+		for a := range addrs {
+			keys = append(keys, a)
+		}
+		sort.Strings(keys)
+		for _, a := range keys {
+			x := o
+			x.Kind = "entdrop"
+			x.Client = p.Addr + "/" + a + "/"
+			out = append(out, x)
+		}
+	}
+	return out
+}
+
 func (o RegOp) String() string {
 	return fmt.Sprintf("%s %s %s->%s valid=%v ok=%v [%d,%d] %s", o.Kind, o.Peer, o.Client, o.Server, o.Valid, o.OK, o.Call, o.Return, o.Listing)
 }
